@@ -149,7 +149,7 @@ def verify_set_thread_map(run, tier, prefix_root='C02'):
     _explore(run, tier, sess, thunk, fq, prefix)
 
 
-def _explore(run, tier, sess, thunk, fq, prefix, known_hyp=None, allow_raise=False):
+def _explore(run, tier, sess, thunk, fq, prefix, known_hyp=None, allow_raise=False, only=None):
     try:
         prs = sess.explore(thunk)
     except Unsupported as ex:
@@ -172,6 +172,8 @@ def _explore(run, tier, sess, thunk, fq, prefix, known_hyp=None, allow_raise=Fal
             agg[ob] = {'status': 'refuted', 'ms': 0.0, 'backend': 'z3-5.1', 'detail': '%s raised' % p.exc.cls_name, 'pc': p.pc}
             continue
         for ob in p.obligations:
+            if only is not None and not any(x in ob.name for x in only):
+                continue
             v = solve.prove(ob.pc, ob.goal, 30000, tier)
             cur = agg.setdefault(ob.name, {'status': 'proved', 'ms': 0.0, 'backend': v.backend, 'kind': ob.kind})
             cur['ms'] += v.ms
